@@ -20,6 +20,9 @@ for d in DIRS:
                         tier="quick" if d in ("define", "ifdef", "if", "endif", "else", "repeat", "endr", "set", "export", "equ", "align", "include", "func", "bogus", "entry_point") else "thorough"))
 import C13 as _c13
 GROUPS.append(Group(name="C12/init_keeps_errors", unity="C13/u_ctx.cpp", entry="h_init_between_passes", functions=_c13.CTXF[1:5], unwind=4, checks=CH, timeout=600))
+# .repeat: "a block that is not closed by .endr, or a count below 1, is an error" is an obligation of the parse_repeat contract (C09)
+import C09 as _c09
+GROUPS += [g for g in _c09.GROUPS if g.name == "C09/parse_repeat"]
 LEVEL = "proof"
 TRUSTED = ["callees of main()/assemble() are replaced by contracts returning arbitrary status codes"]
 MANIFEST = {
